@@ -80,7 +80,10 @@ struct VMMon
     // stack partition monitor
     std::vector<std::string> stack_viol;
     long long stack_checks = 0;
-    Shadow shadow;                                // last observation of the executing context
+    std::vector<Shadow> shadows;                  // last observation of every script (by context id): survives context switches
+    Shadow shadow_unknown;
+    const void* last_ctx = nullptr; int last_ctx_id = -1;
+    Shadow& shadow_of(sqf::runtime::runtime& r, sqf::runtime::context& c);
     // slice log
     struct Slice { int ctx; long long t0, t1; long long n; int res; bool susp; long long wake; size_t budget; bool can_suspend; bool empty_after; int known0; int known1; bool terminated; long long seq0; long long seq1; };
     std::vector<Slice> slice_log;
